@@ -159,7 +159,7 @@ def model_changes(quick):
              ("MassFunction", {"filter_model": "SharpK", "filter_params": {"c": 2.2}}, {"filter_model": "SharpKEllipsoid"}, "sigma"),
              ("Transfer", {"growth_model": "Carroll1992", "growth_params": {"zmax": 50.0, "dz": 0.02}}, {"growth_model": "GenMFGrowth"}, "growth_factor"),
              ("MassFunction", {"hmf_model": "SMT", "hmf_params": {"a": 0.8, "p": 0.25}}, {"hmf_model": "ST"}, "fsigma"),
-             ("Transfer", {"transfer_model": "EH_BAO", "transfer_params": {"use_sugiyama_baryons": True}}, {"transfer_model": "EH_NoBAO"}, "power"),
+             ("Transfer", {"transfer_model": "BBKS", "transfer_params": {"a": 2.4}}, {"transfer_model": "BondEfs"}, "power"),
              ("MassFunctionWDM", {"wdm_model": "Viel05", "wdm_params": {"mu": 1.3}}, {"wdm_mass": 2.5}, "dndm")]
     with warnings.catch_warnings():
         warnings.simplefilter("ignore")
@@ -190,6 +190,33 @@ def model_changes(quick):
                     continue
                 if realfuzz.read(c, q) != want:
                     viol.append({"key": f"{cn}/clone-model-change/{sorted(change)[0]}/output", "what": f"{cn}: clone({change}).{q} differs from a fresh object's", "replay": {"kind": "c15", "script": script}})
+    return viol, n
+
+
+def tiny_changes(quick):
+    """clone(**changes) with changes that are small but real (relative 1e-6 ... 1e-9): the clone carries exactly the requested values and
+    equals a fresh object with them"""
+    realfuzz.init()
+    viol, n = [], 0
+    with warnings.catch_warnings():
+        warnings.simplefilter("ignore")
+        np.seterr(all="ignore")
+        for cn, k, v0, rel in [("MassFunction", "z", 1.0, 1e-6), ("MassFunction", "sigma_8", 0.8, 1e-7), ("Transfer", "n", 0.96, 1e-6), ("MassFunction", "delta_c", 1.686, 1e-8),
+                               ("MassFunction", "Mmin", 10.0, 1e-9), ("Transfer", "z", 0.0, None)]:
+            cls = realfuzz.class_by_name(cn)
+            o = cls(**dict(copy.deepcopy(realfuzz.BASE[cn]), **{k: v0}))
+            q = "dndm" if cn == "MassFunction" else "power"
+            realfuzz.read(o, q)
+            v1 = v0 * (1 + rel) if rel is not None else 1e-9
+            c = o.clone(**{k: v1})
+            n += 1
+            script = [f"o = {cn}(..., {k}={v0!r}); o.{q}", f"c = o.clone({k}={v1!r})", f"c.parameter_values[{k!r}]; c.{q} vs fresh"]
+            if c.parameter_values[k] != v1:
+                viol.append({"key": f"{cn}/clone-tiny-change/{k}/params", "what": f"{cn}: clone({k}={v1!r}) of an object with {k}={v0!r} reports {k}={c.parameter_values[k]!r}", "replay": {"kind": "c15", "script": script}})
+                continue
+            fr = cls(**dict(copy.deepcopy(realfuzz.BASE[cn]), **{k: v1}))
+            if realfuzz.read(c, q) != realfuzz.read(fr, q):
+                viol.append({"key": f"{cn}/clone-tiny-change/{k}/output", "what": f"{cn}: clone({k}={v1!r}).{q} differs from a fresh object's", "replay": {"kind": "c15", "script": script}})
     return viol, n
 
 
@@ -246,11 +273,16 @@ def camb_user_params(quick):
     with warnings.catch_warnings():
         warnings.simplefilter("ignore")
         np.seterr(all="ignore")
-        for how, (hp_, kpl_) in [(h_, s_) for h_ in (("deepcopy", "clone") if quick else ("deepcopy", "clone", "pickle")) for s_ in ((False, 0), (True, 8))][: (3 if quick else 6)]:
+        plan_ = [("deepcopy", (False, 0, None)), ("deepcopy", (True, 8, None)), ("clone", (False, 0, -0.7)), ("clone", (False, 0, None))]
+        if not quick:
+            plan_ += [("pickle", (False, 0, -0.7)), ("pickle", (True, 8, None)), ("deepcopy", (False, 0, -0.7)), ("clone", (True, 8, None))]
+        for how, (hp_, kpl_, w_) in plan_:
             def mk():
                 cp = camb.CAMBparams(DoLensing=False, Want_CMB=False, Want_CMB_lensing=False, WantCls=False, WantDerivedParameters=False)
                 cp.Transfer.high_precision = hp_          # (the second setting differs from what the model would choose itself)
                 cp.Transfer.k_per_logint = kpl_
+                if w_ is not None:
+                    cp.set_dark_energy(w=w_)              # a non-default dark-energy model set directly on the user's CAMB object
                 return cp
             base = dict(transfer_model="CAMB", lnk_min=-10.0, lnk_max=5.0, dlnk=0.25)
             o = Transfer(transfer_params={"camb_params": mk()}, **base)
@@ -262,16 +294,16 @@ def camb_user_params(quick):
             pc3 = c3.power
             fc3 = Transfer(transfer_params={"camb_params": mk()}, **dict(base, lnk_max=4.0)).power
             if not (pc3.shape == fc3.shape and np.allclose(pc3, fc3, rtol=1e-9, atol=0)):
-                viol.append({"key": f"Transfer/CAMB-user-params/{how}/copy-grid-change-only", "what": f"{how} of a CAMB transfer with user CAMBparams (high_precision={hp_}, k_per_logint={kpl_}) after power was read, then update(lnk_max=4) on the copy: power differs from a fresh object's by up to {float(np.max(np.abs(pc3 / fc3 - 1))) if pc3.shape == fc3.shape else 'shape'}",
-                             "replay": {"kind": "c15", "script": [f"o = Transfer(transfer_model='CAMB', transfer_params={{'camb_params': CAMBparams(Transfer.high_precision={hp_}, Transfer.k_per_logint={kpl_})}}); o.power", f"c = {how}(o); c.update(lnk_max=4.0); c.power"]}})
+                viol.append({"key": f"Transfer/CAMB-user-params/{how}/copy-grid-change-only", "what": f"{how} of a CAMB transfer with user CAMBparams (high_precision={hp_}, k_per_logint={kpl_}, dark energy w={w_}) after power was read, then update(lnk_max=4) on the copy: power differs from a fresh object's by up to {float(np.max(np.abs(pc3 / fc3 - 1))) if pc3.shape == fc3.shape else 'shape'}",
+                             "replay": {"kind": "c15", "script": [f"o = Transfer(transfer_model='CAMB', transfer_params={{'camb_params': CAMBparams(Transfer.high_precision={hp_}, Transfer.k_per_logint={kpl_}, set_dark_energy(w={w_}))}}); o.power", f"c = {how}(o); c.update(lnk_max=4.0); c.power"]}})
             c.update(cosmo_params={"Om0": 0.25})
             pc = c.power
             c.update(lnk_max=4.0)
             pc2 = c.power
             fc2 = Transfer(transfer_params={"camb_params": mk()}, cosmo_params={"Om0": 0.25}, **dict(base, lnk_max=4.0)).power
             if not (pc2.shape == fc2.shape and np.allclose(pc2, fc2, rtol=1e-9, atol=0)):
-                viol.append({"key": f"Transfer/CAMB-user-params/{how}/copy-after-grid-change", "what": f"{how} of a CAMB transfer with user CAMBparams (high_precision={hp_}, k_per_logint={kpl_}), then update(lnk_max=4) on the copy: power differs from a fresh object's by up to {float(np.max(np.abs(pc2 / fc2 - 1))) if pc2.shape == fc2.shape else 'shape'}",
-                             "replay": {"kind": "c15", "script": [f"o = Transfer(transfer_model='CAMB', transfer_params={{'camb_params': CAMBparams(Transfer.high_precision={hp_}, Transfer.k_per_logint={kpl_})}}); o.power", f"c = {how}(o); c.update(cosmo_params={{'Om0':0.25}}); c.update(lnk_max=4.0); c.power"]}})
+                viol.append({"key": f"Transfer/CAMB-user-params/{how}/copy-after-grid-change", "what": f"{how} of a CAMB transfer with user CAMBparams (high_precision={hp_}, k_per_logint={kpl_}, dark energy w={w_}), then update(lnk_max=4) on the copy: power differs from a fresh object's by up to {float(np.max(np.abs(pc2 / fc2 - 1))) if pc2.shape == fc2.shape else 'shape'}",
+                             "replay": {"kind": "c15", "script": [f"o = Transfer(transfer_model='CAMB', transfer_params={{'camb_params': CAMBparams(Transfer.high_precision={hp_}, Transfer.k_per_logint={kpl_}, set_dark_energy(w={w_}))}}); o.power", f"c = {how}(o); c.update(cosmo_params={{'Om0':0.25}}); c.update(lnk_max=4.0); c.power"]}})
             o.update(dlnk=0.2)
             po = o.power
             n += 1
@@ -308,7 +340,7 @@ def run(ctx):
             if not any(y["key"] == x["key"] for y in out["violations"]):
                 x["replay"] = {"kind": "c15", "script": script, "cls": cn, "camb": camb}
                 out["violations"].append(x)
-    for fn in (none_changes, model_changes, dict_changes, camb_user_params):
+    for fn in (none_changes, model_changes, tiny_changes, dict_changes, camb_user_params):
         v, k = fn(quick)
         n += k
         for x in v:
